@@ -247,6 +247,26 @@ class Harness:
 
     # -- payload construction ---------------------------------------------
     def payload_fn(self, pid):
+        """The callable handed to adopt: a plain function by default, or (spec["callable"]) a functools.partial,
+        a bound method, or a callable instance - the latter also in an unhashable variety (defines __eq__)."""
+        fn = self._plain_payload_fn(pid)
+        kind = self.specs[pid].get("callable", "function")
+        if kind == "function":
+            return fn
+        if kind == "partial":
+            import functools
+
+            return functools.partial(fn)
+        is_async = self.specs[pid]["flavour"] != "threading"
+        if kind == "method":
+            return (_AsyncCarrier(fn) if is_async else _SyncCarrier(fn)).call
+        if kind == "instance":
+            return _AsyncCallable(fn) if is_async else _SyncCallable(fn)
+        if kind == "unhashable-instance":
+            return _AsyncUnhashable(fn) if is_async else _SyncUnhashable(fn)
+        raise ValueError("unknown callable kind %r" % kind)
+
+    def _plain_payload_fn(self, pid):
         spec = self.specs[pid]
         fl = spec["flavour"]
         if fl == "threading":
@@ -679,6 +699,42 @@ class Harness:
             return err
         self.ev("accept-ended", how="returned", runner=self.runners.index(runner))
         return None
+
+
+class _SyncCarrier:
+    def __init__(self, fn):
+        self.fn = fn
+
+    def call(self, *args, **kwargs):
+        return self.fn(*args, **kwargs)
+
+
+class _AsyncCarrier(_SyncCarrier):
+    async def call(self, *args, **kwargs):
+        return await self.fn(*args, **kwargs)
+
+
+class _SyncCallable:
+    def __init__(self, fn):
+        self.fn = fn
+
+    def __call__(self, *args, **kwargs):
+        return self.fn(*args, **kwargs)
+
+
+class _AsyncCallable(_SyncCallable):
+    async def __call__(self, *args, **kwargs):
+        return await self.fn(*args, **kwargs)
+
+
+class _SyncUnhashable(_SyncCallable):
+    def __eq__(self, other):  # defining __eq__ without __hash__ makes instances unhashable
+        return self is other
+
+
+class _AsyncUnhashable(_AsyncCallable):
+    def __eq__(self, other):
+        return self is other
 
 
 def make_arg(a):
